@@ -38,6 +38,7 @@ MAX_DEPTH = 4000
 class Space:
     cur = None
     fork_hook = None  # optional callable(cond) for the parametricity guard
+    capture = None  # dict(queries=[], limit=k, every=m, seen=0): discharged assertions exported for a second solver
 
     def __init__(self, timeout_ms=30000, seed=0):
         self.solver = z3.Solver()
@@ -188,6 +189,15 @@ class Space:
         r = self._check(z3.Not(cond))
         if r == "sat":
             raise AssertViolated(label, self.solver.model())
+        self.notes["last_assert"] = (label, cond)
+        cap = Space.capture
+        if cap is not None and len(cap["queries"]) < cap["limit"] and not z3.is_true(z3.simplify(cond)):
+            cap["seen"] += 1
+            if cap["seen"] % cap["every"] == 0:
+                tmp = z3.Solver()
+                tmp.add(self.solver.assertions())
+                tmp.add(z3.Not(cond))
+                cap["queries"].append((label, tmp.to_smt2()))
         self.solver.add(cond)
 
     def hit(self, name):
